@@ -247,6 +247,19 @@ add("FX-35", "d45f29c", "C19", "rand.value_outside_domain", "GenerateRandomAttri
                "domain": {"ranges": [[2.5e-07, 5e-07]], "elems": []}, "only_leaf": False,
                "mode": "seeded", "seed": 7, "obj": "fresh"}], [M(F("A", [R(1, 1, F("B"))]))]))
 
+_gl2 = json.dumps({"name": "w", "features": {
+    "r": {"name": "Root", "type": "FEATURE", "optional": False},
+    "g": {"name": "G", "type": "XOR", "optional": True},
+    "a": {"name": "A", "type": "FEATURE", "optional": False},
+    "b": {"name": "B", "type": "FEATURE", "optional": False}},
+    "tree": {"id": "r", "children": [{"id": "g", "children": [{"id": "a"}, {"id": "b"}]}]},
+    "constraints": {}})
+add("FX-36", "8054ebc", "C02", "wf.rel_empty", "GlencoeReader.transform",
+    "a Glencoe document whose XOR / OR / GENOR feature has only non-optional children was read "
+    "into a model with an empty group relation under that feature (the mandatory children get "
+    "relations of their own; the group had no members left)",
+    put_plan("glencoe", _gl2, {"kind": "any"}, "C02"))
+
 
 def main():
     os.makedirs(os.path.join(orch.VERIF, "known"), exist_ok=True)
